@@ -9,7 +9,7 @@ SPEC = dict(
     claim='Round trip decode(encode w n)=n for every width>=1 and every representable n, the exact representable range, rejection of every malformed field and well-formedness of everything accepted are Lean theorems about a model of hybrid36.decode (induction on digit lists, no enumeration). The model is tied to the code by exhaustive/differential comparison on ~20k fields per run (thorough: 12.5M), the real code is also compared with the format definition directly, and serial-column rewrites of whole structures must leave every result unchanged.',
     note='Trusted: Lean kernel, propext/Quot.sound/Classical.choice, the harness; ASCII/latin-1 fields only; Python int() on pure digit strings. The ASCII-order form of monotonicity is checked on the real code per run (sorted valid fields), the theorem proves monotonicity in the encoded value.',
     technique='Lean 4 proof (induction over base-36 digit lists) + exhaustive differential correspondence',
-    lean=["Propka.Props.C19"],
+    lean=["Propka.Props.C19", "Propka.Props.Program"],
     rule="strings over the alphabet 0 9 5 A Z K a z k _ - + . space tab (exhaustive up to width 3 quick / 4 thorough), "
          "valid encodings at all segment boundaries of widths 1-5 plus random values, each padded and unpadded; "
          "a case is non-trivial when it is a distinct string; serial-column rewrites of whole structures",
